@@ -107,6 +107,43 @@ pub fn gen_hampel(rng: &mut Rng, tier: &Tier) -> Vec<Case> {
                 cases.push(c);
             }
         }
+        // the same kind of signal at every scale: small integers with gross outliers, multiplied by a power of two (exact,
+        // so every clause scales with it) from near the bottom to near the top of the normal range — squares, products
+        // and sums that stay in range at unit scale need not do so there
+        let (lo, hi) = if t == "f32" { (-84, 95) } else { (-900, 900) };
+        for _ in 0..tier.n(120, 1500) {
+            let n = rng.range(1, 9) as usize;
+            let thr = *rng.pick(&thresholds);
+            let scale = 2f64.powi(rng.range(lo, hi) as i32);
+            let mut c = vec![format!("new 1 hampel N={} thr={} T={}", n, fb(t, thr), t)];
+            for _ in 0..rng.range(2, 3 * n as i64 + 4) {
+                let x = match rng.below(6) {
+                    0 => rng.range(-4, 4) as f64 * rng.range(8, 1000) as f64,
+                    _ => rng.range(-4, 4) as f64,
+                };
+                c.push(format!("f 1 {}", fb(t, x * scale)));
+            }
+            cases.push(c);
+        }
+        // "any sample differing from a constant window is replaced", however little it differs: a constant window, then
+        // one sample a tiny (or a huge) step away
+        for _ in 0..tier.n(60, 600) {
+            let n = rng.range(1, 9) as usize;
+            let thr = *rng.pick(&thresholds);
+            let mut c = vec![format!("new 1 hampel N={} thr={} T={}", n, fb(t, thr), t)];
+            let (level, step) = if rng.chance(1, 2) {
+                (0.0, 2f64.powi(rng.range(lo, hi) as i32) * if rng.chance(1, 2) { 1.0 } else { -1.0 })
+            } else {
+                let l = 2f64.powi(rng.range(lo, hi - 2) as i32);
+                (l, l * *rng.pick(&[2.0, 0.5, -1.0, 1.5]))
+            };
+            for _ in 0..rng.range(n as i64, n as i64 + 3) {
+                c.push(format!("f 1 {}", fb(t, level)));
+            }
+            c.push(format!("f 1 {}", fb(t, step)));
+            c.push(format!("f 1 {}", fb(t, level)));
+            cases.push(c);
+        }
     }
     cases
 }
